@@ -29,7 +29,7 @@ PreClass(st, k) ==
 
 D(line, e, pre, field, want, got) ==
     [line |-> line, i |-> e.i, op |-> e.a.op, k |-> e.a.k, pre |-> pre, field |-> field,
-     want |-> ToString(want), got |-> ToString(got),
+     want |-> ToString(want), got |-> ToString(got), shape |-> e.a.shape, ld |-> e.a.ld,
      cfg |-> <<s.cfg.size, s.cfg.expiry, s.cfg.refresh>>]
 
 AEvents(e, h) == LET q == SelectSeq(e.ev, LAMBDA x : x.h = h)
@@ -42,24 +42,30 @@ AEvents(e, h) == LET q == SelectSeq(e.ev, LAMBDA x : x.h = h)
 \* a loader phase happen after its marker and before the next one.
 \* cur: micro-writes of the active phase, rest: phases not yet started, q: remaining events and markers.
 Acc0 == [bad |-> <<>>, missing |-> <<>>, refany |-> {}, nov |-> 0, nex |-> 0, wov |-> 0, wex |-> 0, evk |-> {}]
-RECURSIVE RunMW(_, _, _, _, _, _)
-RunMW(st, cur, rest, q, acc, early) ==
+RECURSIVE RunMW(_, _, _, _, _, _, _)
+RunMW(st, cur, rest, q, acc, early, fin) ==
     IF cur # {} /\ (q = <<>> \/ Head(q).c = "L")
     THEN \* the active phase ends: apply what is left of it
          LET w == CHOOSE x \in cur : \A y \in cur : x.k <= y.k
              drop == Dropped(w, acc.evk)
          IN RunMW(IF drop THEN st ELSE ExecMW(st, w), cur \ {w}, rest, q,
                   IF drop THEN acc
-                  ELSE [acc EXCEPT !.missing = @ \o EvMW(st, w), !.refany = @ \cup RefAnyMW(st, w)], early)
+                  ELSE [acc EXCEPT !.missing = @ \o EvMW(st, w), !.refany = @ \cup RefAnyMW(st, w)], early, fin)
     ELSE IF q = <<>> THEN
          IF rest = <<>> THEN [s |-> st, acc |-> acc]
-         ELSE RunMW(st, Head(rest), Tail(rest), q, acc, early)          \* a phase whose loader call was not logged
+         ELSE RunMW(st, Head(rest), Tail(rest), q, acc, early, fin)          \* a phase whose loader call was not logged
     ELSE IF Head(q).c = "L" THEN
-         IF rest = <<>> THEN RunMW(st, {}, rest, Tail(q), acc, early)
-         ELSE RunMW(st, Head(rest), Tail(rest), Tail(q), IF early THEN acc ELSE [acc EXCEPT !.evk = {}], early)
+         IF rest = <<>> THEN RunMW(st, {}, rest, Tail(q), acc, early, fin)
+         ELSE RunMW(st, Head(rest), Tail(rest), Tail(q), IF early THEN acc ELSE [acc EXCEPT !.evk = {}], early, fin)
     ELSE
         LET ev   == Head(q)
-            cand == {w \in cur : w.k = ev.k /\ ~Dropped(w, acc.evk) /\ EvMW(st, w) = <<ev>>}
+            \* An Expiration event for a dead entry whose in-flight load is about to complete is ambiguous: the
+            \* completing load replaced the dead node, or the sweep removed it first (which cancels the load,
+            \* C09).  Both are legal; what happened is read off the rest of the log / the final projection.
+            later(w) == \/ \E j \in DOMAIN q : j > 1 /\ q[j].k = w.k /\ q[j].v = w.v /\ q[j].c # "L"
+                        \/ (w.k \in DOMAIN fin /\ fin[w.k].p = 1 /\ fin[w.k].v = w.v)
+            amb(w) == w.real /\ w.t = "put" /\ ev.c = "Expiration" /\ AutoOK(st, ev)
+            cand == {w \in cur : (w.k = ev.k) /\ (~Dropped(w, acc.evk)) /\ (EvMW(st, w) = <<ev>>) /\ (amb(w) => later(w))}
             sil  == {w \in cur : Dropped(w, acc.evk) \/ EvMW(st, w) = <<>>}
             inK  == ev.k \in Keys(st)
             wgt  == IF inK /\ st.ent[ev.k].p THEN st.ent[ev.k].w ELSE 0
@@ -71,16 +77,16 @@ RunMW(st, cur, rest, q, acc, early) ==
         IN IF cand # {}
            THEN LET w == CHOOSE x \in cand : TRUE
                 IN RunMW(ExecMW(st, w), cur \ {w}, rest, Tail(q),
-                         [acc EXCEPT !.refany = @ \cup RefAnyMW(st, w)], early)
-           ELSE IF AutoOK(st, ev) THEN RunMW(Auto(st, ev), cur, rest, Tail(q), cnt(acc), early)
+                         [acc EXCEPT !.refany = @ \cup RefAnyMW(st, w)], early, fin)
+           ELSE IF AutoOK(st, ev) THEN RunMW(Auto(st, ev), cur, rest, Tail(q), cnt(acc), early, fin)
            ELSE IF sil # {}
            THEN LET w == CHOOSE x \in sil : \A y \in sil : x.k <= y.k
                     drop == Dropped(w, acc.evk)
                 IN RunMW(IF drop THEN st ELSE ExecMW(st, w), cur \ {w}, rest, q,
-                         IF drop THEN acc ELSE [acc EXCEPT !.refany = @ \cup RefAnyMW(st, w)], early)
+                         IF drop THEN acc ELSE [acc EXCEPT !.refany = @ \cup RefAnyMW(st, w)], early, fin)
            ELSE RunMW(IF inK /\ st.ent[ev.k].p /\ st.ent[ev.k].v = ev.v THEN Auto(st, ev) ELSE st, cur, rest, Tail(q),
                       [cnt(acc) EXCEPT !.bad = Append(@, [k |-> ev.k, v |-> ev.v, c |-> ev.c, total |-> Total(st), max |-> st.max,
-                                                            ent |-> IF inK THEN st.ent[ev.k] ELSE Absent, now |-> st.now])], early)
+                                                            ent |-> IF inK THEN st.ent[ev.k] ELSE Absent, now |-> st.now])], early, fin)
 
 NormRR(q) == {[k |-> q[j].k, v |-> IF q[j].err = "" THEN q[j].v ELSE 0, err |-> q[j].err] : j \in DOMAIN q}
 KVSet(q)  == {<<q[j].k, q[j].v>> : j \in DOMAIN q}
@@ -135,8 +141,9 @@ TraceStep(st, e, line) ==
         logD == AEvents(e, "D")
         logAL == LET q == SelectSeq(e.ev, LAMBDA x : x.h \in {"A", "L"})
                  IN [j \in DOMAIN q |-> [k |-> q[j].k, v |-> q[j].v, c |-> IF q[j].h = "L" THEN "L" ELSE q[j].c]]
-        rm   == IF o.gated THEN RunMW(r.s, {}, o.mw, logAL, Acc0, o.early)
-                ELSE RunMW(r.s, IF o.mw = <<>> THEN {} ELSE Head(o.mw), IF o.mw = <<>> THEN <<>> ELSE Tail(o.mw), logAL, Acc0, o.early)
+        fin  == [k \in Keys(st) |-> e.proj[k + 1]]
+        rm   == IF o.gated THEN RunMW(r.s, {}, o.mw, logAL, Acc0, o.early, fin)
+                ELSE RunMW(r.s, IF o.mw = <<>> THEN {} ELSE Head(o.mw), IF o.mw = <<>> THEN <<>> ELSE Tail(o.mw), logAL, Acc0, o.early, fin)
         af   == rm.acc
         s2   == rm.s
         \* eviction counters: every Overflow removal, plus expiration sweeps; an Expiration event that
@@ -164,8 +171,9 @@ TraceStep(st, e, line) ==
                (IF af.missing # <<>> THEN <<D(line, e, pre, "ev.missing", af.missing, logA)>> ELSE <<>>)
             \o [j \in DOMAIN af.bad |-> D(line, e, PreClass(st, af.bad[j].k), "ev.unjustified." \o af.bad[j].c, "justified", af.bad[j])]
             \o (IF ~BagEq(logA, logD) THEN <<D(line, e, pre, "ev.async", logA, logD)>> ELSE <<>>)
-        tgt  == [k \in Keys(st) |-> e.tgt[k + 1]]
-        slDevs == IF a.op # "SaveLoad" \/ e.err # "" THEN (IF a.op = "SaveLoad" THEN <<D(line, e, pre, "saveload.error", "", e.err)>> ELSE <<>>)
+        tgt  == [k \in Keys(st) |-> IF k + 1 \in DOMAIN e.tgt THEN e.tgt[k + 1] ELSE [k |-> k, p |-> 0, v |-> -1, w |-> 0, exp |-> 0, ref |-> 0]]
+        slDevs == IF a.op # "SaveLoad" \/ e.err # "" \/ e.panic = 1
+                  THEN (IF a.op = "SaveLoad" THEN <<D(line, e, pre, "saveload.error", "", <<e.err, e.panic>>)>> ELSE <<>>)
                   ELSE LET f == SaveLoadDevs(s2, tgt, e.tgtnow, e.tgtmax)
                            ks == SetToSortedSeq(DOMAIN f)
                        IN [j \in DOMAIN ks |-> D(line, e, IF ks[j] \in Keys(s2) THEN PreClass(s2, ks[j]) ELSE "nokey",
